@@ -193,7 +193,7 @@ theorem numOf_default (v : String) :
   rcases h : Op.FllIO.words v.toList with _ | ⟨a, _ | ⟨b, r⟩⟩
   · rfl
   · simp only [List.map_cons, List.map_nil, numTokOf]
-    cases Dec.parse a <;> rfl
+    cases parseNum a <;> rfl
   · simp [numOf, lift, Err.toPy]
 
 theorem code_ovLoop (fll : String) : ∀ (lines : List String) (σ : FllImporter_output_variable.S) (v0 : OutVar), σ.ov = v0 →
